@@ -86,6 +86,7 @@ impl File {
         let dest = OpenOptions::new()
             .create(true)
             .write(true)
+            .truncate(true)
             .mode(this_metadata.mode())
             .open(dest)?;
         let mut offset = 0;
